@@ -162,6 +162,19 @@ func (ds *dataStore) passOnWake(keyNames []string) {
 	}
 }
 
+// A client waiting on several lists may have been chosen by a push to one list while its retry
+// took the element of another: once served it leaves the wait lists and the wake-up is passed
+// on, so that the element it was chosen for does not sit next to a sleeping client.
+func (ds *dataStore) passOnWakeServed(ws *wakeSignal, keyNames []string) {
+	if len(keyNames) < 2 {
+		return
+	}
+	ds.mu.Lock()
+	ds.waitingClients.unlinkWakeSignal(ws)
+	ds.mu.Unlock()
+	ds.passOnWake(keyNames)
+}
+
 func (ds *dataStore) leaveListBlock(ws *wakeSignal) {
 	ds.mu.Lock()
 	defer ds.mu.Unlock()
